@@ -227,6 +227,32 @@ def keyswitch_entry_by_interpretation(chk, v, e):
     return None
 
 
+def check_entry(chk, v, rule="R4"):
+    """the key-switch entry point the gates call: (0, b) minus the rows the digits of the rounded mask select -- through the
+    translation function with the key's own arguments, or decided by running the entry point on concrete masks"""
+    vn = v.name
+    # R4 entry point
+    e = v.fn("lweKeySwitch")
+    eps, _ = summ.pieces(v, e, hooks=NOINLINE)
+    r, k, s = [p["n"] for p in e.params]
+    triv = [p for p in eps if p["kind"] == "call" and p["name"] == "lweNoiselessTrivial"]
+    tr = [p for p in eps if p["kind"] == "call" and p["name"] == "lweKeySwitchTranslate_fromArray"]
+    if len(tr) != 1 or len(triv) != 1:
+        # the translation written out in the entry point (or split over helpers): decided by running the entry point on concrete
+        # masks for small (n, t, basebit) and comparing the rows it subtracts with the digits of the rounded mask
+        wit = keyswitch_entry_by_interpretation(chk, v, e)
+        chk.require(wit is None, rule, "lweKeySwitch starts from (0, b) and translates by the rows selected from a with the key's own (n, t, basebit)",
+                    where=e.where, ok="interpreted for n in 1..3, t in 1..5, basebit in 1..3 on 8 masks each: result = (0, b) - sum of rows "
+                    "ks[i][j][digit_j(a_i + 2^(31 - t*basebit))] over the non-zero digits", bad=wit or "", variant=vn)
+    else:
+        ok = triv[0]["line"] < tr[0]["line"] and \
+            triv[0]["args"][:3] == [sym.sym(r), P(s, "b"), P(k, "out_params")] and \
+            tr[0]["args"] == [sym.sym(r), P(k, "ks"), P(k, "out_params"), P(s, "a"), P(k, "n"), P(k, "t"), P(k, "basebit")]
+        chk.require(ok, rule, "lweKeySwitch starts from (0, b) and translates by the rows selected from a with the key's own (n, t, basebit)",
+                    where=e.where, ok="lweNoiselessTrivial(result, sample->b) then translate(result, ks->ks, sample->a, ks->n, ks->t, ks->basebit)",
+                    bad="calls: %s" % [summ.show_piece(p) for p in eps if p["kind"] == "call"], variant=vn)
+
+
 def run(chk):
     prog = Program()
     chk.explanation = (
@@ -460,26 +486,7 @@ def run(chk):
                             sym.show(e3n), sym.show(hl["lo"]), "trivial zero, skipped by the consumer" if lo_h == 1 else "encrypts 0"),
                         bad="; ".join(problems), variant=vn)
             chk.vcount(vn, "R3.generators")
-        # R4 entry point
-        e = v.fn("lweKeySwitch")
-        eps, _ = summ.pieces(v, e, hooks=NOINLINE)
-        r, k, s = [p["n"] for p in e.params]
-        triv = [p for p in eps if p["kind"] == "call" and p["name"] == "lweNoiselessTrivial"]
-        tr = [p for p in eps if p["kind"] == "call" and p["name"] == "lweKeySwitchTranslate_fromArray"]
-        if len(tr) != 1 or len(triv) != 1:
-            # the translation written out in the entry point (or split over helpers): decided by running the entry point on concrete
-            # masks for small (n, t, basebit) and comparing the rows it subtracts with the digits of the rounded mask
-            wit = keyswitch_entry_by_interpretation(chk, v, e)
-            chk.require(wit is None, "R4", "lweKeySwitch starts from (0, b) and translates by the rows selected from a with the key's own (n, t, basebit)",
-                        where=e.where, ok="interpreted for n in 1..3, t in 1..5, basebit in 1..3 on 8 masks each: result = (0, b) - sum of rows "
-                        "ks[i][j][digit_j(a_i + 2^(31 - t*basebit))] over the non-zero digits", bad=wit or "", variant=vn)
-        else:
-            ok = triv[0]["line"] < tr[0]["line"] and \
-                triv[0]["args"][:3] == [sym.sym(r), P(s, "b"), P(k, "out_params")] and \
-                tr[0]["args"] == [sym.sym(r), P(k, "ks"), P(k, "out_params"), P(s, "a"), P(k, "n"), P(k, "t"), P(k, "basebit")]
-            chk.require(ok, "R4", "lweKeySwitch starts from (0, b) and translates by the rows selected from a with the key's own (n, t, basebit)",
-                        where=e.where, ok="lweNoiselessTrivial(result, sample->b) then translate(result, ks->ks, sample->a, ks->n, ks->t, ks->basebit)",
-                        bad="calls: %s" % [summ.show_piece(p) for p in eps if p["kind"] == "call"], variant=vn)
+        check_entry(chk, v)
         # R5 table layout
         ctor = [c2 for c2 in v.defined() if c2.get("record") == "LweKeySwitchKey" and c2.get("kind") == "ctor" and not c2.get("implicit")]
         if len(ctor) != 1:
